@@ -122,6 +122,10 @@ class Interp:
         self.max_leaves = max_leaves
         self.atoms = {}           # key -> domain
 
+    def t(self, src):
+        """Canonical text of a source expression written with the function's own names."""
+        return txt(self.canon.rename(ast.parse(src, mode='eval').body))
+
     # ------------------------------------------------------------ expressions
     def subst(self, expr, env):
         class T(ast.NodeTransformer):
